@@ -24,6 +24,23 @@ theorem nonDecreasing_pairwise : ∀ (l : List Int), nonDecreasing l = true → 
     · exact h.1
     · have := List.rel_of_pairwise_cons ih hx; omega
 
+theorem pairwise_nonDecreasing : ∀ (l : List Int), l.Pairwise (· ≤ ·) → nonDecreasing l = true
+  | [], _ => rfl
+  | [_], _ => rfl
+  | a :: b :: rest, h => by
+    have h' := List.pairwise_cons.mp h
+    simp only [nonDecreasing, Bool.and_eq_true, decide_eq_true_eq]
+    exact ⟨h'.1 b (by simp), pairwise_nonDecreasing (b :: rest) h'.2⟩
+
+/-- a strictly decreasing list of two or more bounds is what `_is_non_decreasing` answers `False` for -/
+theorem decreasing_not_nonDecreasing : ∀ (l : List Int), 2 ≤ l.length → l.Pairwise (· > ·) → nonDecreasing l = false
+  | [], h, _ => by simp at h
+  | [_], h, _ => by simp at h
+  | a :: b :: rest, _, h => by
+    have h' := (List.pairwise_cons.mp h).1 b (by simp)
+    simp only [nonDecreasing, Bool.and_eq_false_iff, decide_eq_false_iff_not]
+    left; omega
+
 /-! ### the pandas label slice on a sorted index selects what the masks describe -/
 
 theorem dropWhile_sorted {α} (a : Int) : ∀ (df : Rows α), (df.map (·.1)).Pairwise (· ≤ ·) →
@@ -431,8 +448,8 @@ def rsOf (F : Frame) (ub : List Int) : List (Int × TS) :=
   (slicesOf F ub).zipIdx.flatMap fun x =>
     (((ub.drop x.2).take F.width).zipIdx).map fun y => (y.1, column y.2 x.1)
 
-theorem unslice_eq (F : Frame) (ub : List Int) :
-    unslice F ub = .ok ((((rsOf F ub).map (·.1)).eraseDups.mergeSort (fun a b => decide (a ≤ b))).map fun u =>
+theorem unsliceInc_eq (F : Frame) (ub : List Int) :
+    unsliceInc F ub = .ok ((((rsOf F ub).map (·.1)).eraseDups.mergeSort (fun a b => decide (a ≤ b))).map fun u =>
       (u, nona (((rsOf F ub).filter (·.1 == u)).flatMap (·.2)))) := by
   have hm : ((Bound.none :: ub.dropLast.map Bound.date).zip ub).mapM
       (fun x => sliceWrap F.rows x.1 (.date x.2) (some ['(', ']'])) = .ok (slicesOf F ub) := by
@@ -441,12 +458,26 @@ theorem unslice_eq (F : Frame) (ub : List Int) :
     have : sliceWrap F.rows x.1 (.date x.2) (some ['(', ']']) = sliceOne F.rows x.1 (.date x.2) (some ['(', ']']) := by
       unfold sliceWrap; split <;> first | rfl | (rename_i h1 h2; cases h2)
     rw [this, sliceOne_eq _ _ _ _ false true rfl]
-  unfold unslice
+  unfold unsliceInc
   simp only [bind, Except.bind, pure, Except.pure]
   have hm' : ((Bound.none :: ub.dropLast.map Bound.date).zip ub).mapM
       (fun (x : Bound × Int) => match x with | (l, u) => sliceWrap F.rows l (.date u) (some ['(', ']'])) = .ok (slicesOf F ub) := hm
   rw [hm']
   rfl
+
+/-- on a non-decreasing bound list `df_unslice` is its body -/
+theorem unslice_inc (F : Frame) (ub : List Int) (h : nonDecreasing ub = true) : unslice F ub = unsliceInc F ub := by
+  simp [unslice, h]
+
+/-- a decreasing bound list is read backwards and the result handed back in the order given -/
+theorem unslice_dec (F : Frame) (ub : List Int) (h : nonDecreasing ub = false) :
+    unslice F ub = (unsliceInc F ub.reverse).map List.reverse := by
+  simp [unslice, h]
+
+theorem unslice_eq (F : Frame) (ub : List Int) (h : nonDecreasing ub = true) :
+    unslice F ub = .ok ((((rsOf F ub).map (·.1)).eraseDups.mergeSort (fun a b => decide (a ≤ b))).map fun u =>
+      (u, nona (((rsOf F ub).filter (·.1 == u)).flatMap (·.2)))) := by
+  rw [unslice_inc F ub h, unsliceInc_eq]
 
 theorem slicesOf_getElem? (F : Frame) (ub : List Int) (i : Nat) (hi : i < ub.length) :
     (slicesOf F ub)[i]? = some (F.rows.filter fun r => inWindow false true (loBound ub i) (.date ub[i]) r.1) := by
